@@ -136,7 +136,10 @@ func (d *verifHookDB) GetIPInfo(ip net.IP) (ipinfo.IPInfo, error) {
 
 // a database that answers per address (by the parity of its last byte, with one address it
 // fails on and one it has no country for)
-type verifPerAddrDB struct{ calls int }
+type verifPerAddrDB struct {
+	mu    sync.Mutex
+	calls int
+}
 
 func verifWantInfo(last byte) (ipinfo.IPInfo, bool) {
 	switch {
@@ -151,7 +154,9 @@ func verifWantInfo(last byte) (ipinfo.IPInfo, bool) {
 }
 
 func (d *verifPerAddrDB) GetIPInfo(ip net.IP) (ipinfo.IPInfo, error) {
+	d.mu.Lock()
 	d.calls++
+	d.mu.Unlock()
 	info, ok := verifWantInfo(ip[len(ip)-1])
 	if !ok {
 		return info, errors.New("db failure")
